@@ -15,6 +15,7 @@ import (
 	"sort"
 	"strings"
 	"testing"
+	"testing/synctest"
 	"time"
 
 	"github.com/libp2p/go-libp2p/core/peer"
@@ -274,6 +275,44 @@ func TestVerif_C08_dual(t *testing.T) {
 					}
 				}
 				res.Keep()
+				// (f) a consumer that cancels and walks away: one case in three runs a second search
+				// (count 0) whose consumer reads at most one value, cancels and stops reading. The
+				// channel must be closed all the same; no producer may stay blocked sending on it.
+				if c.Idx%3 == 0 {
+					ctx2, cancel2 := context.WithCancel(context.Background())
+					ch := n.D.FindProvidersAsync(ctx2, op.Cid, 0)
+					tm := time.NewTimer(time.Duration(c.Idx%5) * time.Duration(cfg.WDelay+cfg.LDelay+1) * time.Millisecond)
+					read, closedEarly := 0, false
+				consume:
+					for read == 0 {
+						select {
+						case _, ok := <-ch:
+							if !ok {
+								closedEarly = true
+								break consume
+							}
+							read++
+						case <-tm.C:
+							break consume
+						}
+					}
+					tm.Stop()
+					cancel2()
+					if !closedEarly {
+						time.Sleep(time.Second) // the bound of clause chan-closed-after-cancel
+						synctest.Wait()
+						select {
+						case ai, ok := <-ch:
+							c.Check(!ok, "chan-closed-after-cancel", "the consumer read %d values, cancelled and stopped reading; 1 s later the channel is not closed: a producer was still blocked sending %s on it", read, n.Name(ai.ID))
+						default:
+							c.Check(false, "chan-closed-after-cancel", "the consumer read %d values, cancelled and stopped reading; 1 s later the channel is still open", read)
+						}
+						for range ch { // let whatever is left conclude
+						}
+						c.Obs("abandoned_searches", 1)
+					}
+					time.Sleep(2 * time.Minute)
+				}
 				var order []string
 				for _, a := range answers {
 					order = append(order, a.from)
